@@ -1,5 +1,5 @@
 """C09 - saved logits restore exactly; saved artefacts suffice to rebuild outputs."""
-from sim import logworld
+from sim import logworld, pipeline
 
 PROP = 'C09'
 LEVEL = 'exploration'
@@ -8,7 +8,8 @@ TIERS = {
     'thorough': {'runs': 120000, 'wall_per_run': 180},
 }
 REQUIRED_PROBES = ['lines_restored', 'line_with_stored_and_pruned_cells', 'lost_entry_met',
-                   'line_absent_from_file_left_untouched', 'missing_component_reported', 'redecoded_nonempty_page']
+                   'line_absent_from_file_left_untouched', 'missing_component_reported', 'redecoded_nonempty_page',
+                   'stage2_redecoded_line_with_stored_and_pruned_cells', 'consumer_met_xml_without_logits', 'stage2_killed']
 RULE = ('plans = seeded operation sequences over a two-artefact store (PAGE XML + logits, file or bytes transport): '
         'save / corrupt stored artefact (entries lost, foreign entries, legacy format) / restart (objects dropped) / '
         'load into a layout rebuilt from the stored PAGE XML (optionally with extra lines, or another page, or a '
@@ -29,10 +30,27 @@ ASSUMPTIONS = ['no stored logit is exactly 0.0 (as in the property)', 'ALTO text
 def warmup():
     import torch
     torch.set_num_threads(1)
+    import cv2
+    cv2.setNumThreads(1)
+    import parse_folder  # noqa
     logworld.execute(logworld.gen_plan(0, 'warm', 0))
     logworld.execute(logworld.gen_plan(0, 'warm', 1))
+    pipeline.execute_c09b(pipeline.gen_plan_c09b(0, 'warm', 0))
+    pipeline.execute_c09b(pipeline.gen_plan_c09b(0, 'warm', 1))
 
 
-gen_plan = logworld.gen_plan
-execute = logworld.execute
-shrink_candidates = logworld.shrink_candidates
+LAYER_B_EVERY = 8       # every 8th plan is the two-process parse_folder pipeline (pfworld)
+
+
+def gen_plan(seed, tier, index):
+    if index % LAYER_B_EVERY == LAYER_B_EVERY - 1:
+        return pipeline.gen_plan_c09b(seed, tier, index)
+    return logworld.gen_plan(seed, tier, index)
+
+
+def execute(plan):
+    return pipeline.execute_c09b(plan) if plan['world'] == 'pf9' else logworld.execute(plan)
+
+
+def shrink_candidates(plan):
+    return pipeline.shrink_c09b(plan) if plan['world'] == 'pf9' else logworld.shrink_candidates(plan)
